@@ -35,8 +35,9 @@ extern "C" void h_state(void) {
 alignas(16) static unsigned char dummy[4096];
 template <class T> static const T& none() { return *reinterpret_cast<const T*>(dummy); }
 static Well mkwell(const char* name, bool producer) {
+    static const UnitSystem units = UnitSystem::newMETRIC();          // the well keeps a pointer to its unit system
     return Well(name, "G1", 0, 0, 1, 1, 100.0, WellType(producer, producer ? Phase::OIL : Phase::WATER), Well::ProducerCMode::ORAT, Connection::Order::TRACK,
-                UnitSystem::newMETRIC(), -1.0, 0.0, true, true, 0, Well::GasInflowEquation::STD);
+                units, -1.0, 0.0, true, true, 0, Well::GasInflowEquation::STD);
 }
 struct Model { double o[2], w[2], g[2], ef[2]; bool shut[2]; };
 static quantity evalkw(const char* kw, const std::vector<const Well*>& wells, const data::Wells& xw, const std::vector<std::pair<std::string, double>>& efs, double dt, const SummaryState& st) {
@@ -71,4 +72,39 @@ extern "C" void h_rates(void) {
     // totals: the increment handed to SummaryState is rate * step length
     CEQ(evalkw("WOPT", one, xw, efs, dt, st).value, prod(0, m.o) * dt); CEQ(evalkw("GWIT", both, xw, efs, dt, st).value, (inj(0, m.w) + inj(1, m.w)) * dt); CEQ(evalkw("FGPT", both, xw, efs, dt, st).value, (prod(0, m.g) + prod(1, m.g)) * dt);
     CEQ(evalkw("WLPT", one, xw, efs, dt, st).value, (prod(0, m.w) + prod(0, m.o)) * dt);
+}
+
+// ---- history vectors echo the schedule's observed rates (WCONHIST / WCONINJH values held by the well), weighted and gated like the rates
+extern "C" void h_history(void) {
+    Well w1 = mkwell("W1", true), w2 = mkwell("W2", true), wi = mkwell("I1", false);
+    double ho[2], hw[2], hg[2], ef[3], hinj; bool shut[3];
+    for (int i = 0; i < 2; ++i) { ho[i] = verif_nondet_real(); hw[i] = verif_nondet_real(); hg[i] = verif_nondet_real(); ASSUME(ho[i] >= 0 && hw[i] >= 0 && hg[i] >= 0); }
+    for (int i = 0; i < 3; ++i) { ef[i] = verif_nondet_real(); ASSUME(ef[i] > 0 && ef[i] <= 1); shut[i] = nondet_bool(); }
+    hinj = verif_nondet_real(); ASSUME(hinj >= 0);
+    Well* pw[2] = { &w1, &w2 };
+    for (int i = 0; i < 2; ++i) {
+        auto p = std::make_shared<Well::WellProductionProperties>(pw[i]->getProductionProperties());
+        p->OilRate = UDAValue(ho[i]); p->WaterRate = UDAValue(hw[i]); p->GasRate = UDAValue(hg[i]); p->predictionMode = false;
+        pw[i]->updateProduction(p);
+    }
+    { auto p = std::make_shared<Well::WellInjectionProperties>(wi.getInjectionProperties());
+      p->surfaceInjectionRate = UDAValue(hinj); p->injectorType = InjectorType::WATER; p->predictionMode = false; wi.updateInjection(p); }
+    SummaryState st(std::time_t{ 0 });
+    data::Wells xw;
+    const char* names[3] = { "W1", "W2", "I1" };
+    for (int i = 0; i < 3; ++i) xw[names[i]].dynamicStatus = shut[i] ? Well::Status::SHUT : Well::Status::OPEN;
+    const std::vector<std::pair<std::string, double>> efs { { "W1", ef[0] }, { "W2", ef[1] }, { "I1", ef[2] } };
+    const double dt = verif_nondet_real(); ASSUME(dt > 0);
+    const std::vector<const Well*> one { &w1 }, both { &w1, &w2 }, all { &w1, &w2, &wi }, inj { &wi };
+    auto h = [&](int i, const double* r) { return shut[i] ? 0.0 : r[i] * ef[i]; };
+    CEQ(evalkw("WOPRH", one, xw, efs, dt, st).value, h(0, ho)); CEQ(evalkw("WWPRH", one, xw, efs, dt, st).value, h(0, hw)); CEQ(evalkw("WGPRH", one, xw, efs, dt, st).value, h(0, hg));
+    CEQ(evalkw("WLPRH", one, xw, efs, dt, st).value, h(0, hw) + h(0, ho));
+    CEQ(evalkw("GOPRH", both, xw, efs, dt, st).value, h(0, ho) + h(1, ho)); CEQ(evalkw("FWPRH", all, xw, efs, dt, st).value, h(0, hw) + h(1, hw));      // the injector adds nothing to production history
+    CEQ(evalkw("WOPTH", one, xw, efs, dt, st).value, h(0, ho) * dt); CEQ(evalkw("FGPTH", all, xw, efs, dt, st).value, (h(0, hg) + h(1, hg)) * dt);
+    { const double wp = h(0, hw), op = h(0, ho), wct = evalkw("WWCTH", one, xw, efs, dt, st).value; if (wp + op == 0.0) CEQ(wct, 0.0); else CEQ(wct * (wp + op), wp); }
+    { const double gp = h(0, hg), op = h(0, ho), gor = evalkw("WGORH", one, xw, efs, dt, st).value; if (op == 0.0) CEQ(gor, 0.0); else CEQ(gor * op, gp); }
+    // the injection target is held in deck units (WCONINJH) and converted to SI with the unit system the well was created with (METRIC: per day)
+    const double ih = shut[2] ? 0.0 : UnitSystem::newMETRIC().to_si(UnitSystem::measure::liquid_surface_rate, hinj) * ef[2];      // (the factor itself is the subject of C02)
+    CEQ(evalkw("WWIRH", inj, xw, efs, dt, st).value, ih); CEQ(evalkw("FWIRH", all, xw, efs, dt, st).value, ih); CEQ(evalkw("FWITH", all, xw, efs, dt, st).value, ih * dt);
+    CEQ(evalkw("WGIRH", inj, xw, efs, dt, st).value, 0.0);                                     // a water injector has no gas injection history
 }
